@@ -1,10 +1,13 @@
 """C01 — emitted 6502 code computes what the C source says.
 
-  proof  : lean/CV/Props/C01.lean — the generator port for the declared fragment (straight-line
-           assignments / arithmetic / compound assignments / ++ -- on zero-page unsigned chars) is
-           correct against the 6502 semantics for every program of the fragment and every state
-  tie    : text-exact: random programs of the fragment compiled at -O0; the port's instruction list
-           must equal the real dump, instruction for instruction (mnemonic and operand text)
+  proof  : lean/CV/Props/C01.lean — the generator port for the declared fragment (stage 1: straight-line
+           assignments / arithmetic / compound assignments / ++ -- on unsigned chars; stage 2: blocks,
+           if / if-else / while / do-while / for with comparisons and truth tests, nested to any depth,
+           including the generator's flag-belief shortcuts) is correct against the 6502 semantics for
+           every program of the fragment, every state, every context; the flag belief is proved sound
+  tie    : text-exact: random programs of both stages compiled at -O0; the port's lines (instructions
+           AND labels) must equal the real dump line for line; the theorem's specification `sem` is
+           validated by executing the really compiled code (-O0, -O1) against it
   search : co-execution against the Lean C semantics (CV.CSem, narrow and wide readings must agree)
            of generated programs well outside the fragment: nested expressions, arrays indexed by
            constants / X / Y, shifts, ternary, && || !, if/else, for/while/do, switch with
@@ -15,8 +18,9 @@ from lib import *
 import prog, gen_c, coexec, csemx
 
 TRUSTED = ["Lean 4 kernel; axioms allowed: propext, Classical.choice, Quot.sound",
-           "specification: CV/Mos.lean (6502 semantics), CV/GenFlat.spec (8-bit wrap-around assignment semantics), CV/CSem.lean (C reading for the search)",
-           "tie: text-exact comparison of CV.GenFlat with the real -O0 output; operand text = operand meaning is checked by loading the same text into the 6502 model",
+           "specification: CV/Mos.lean (6502 semantics), CV/GenFlat.spec + CV/GenStruct.sem (8-bit wrap-around statement semantics), CV/GenStruct.stepG (line machine with first-occurrence label lookup), CV/CSem.lean (C reading for the search)",
+           "tie: text-exact comparison of CV.GenFlat / CV.GenStruct with the real -O0 output (instructions and labels); operand text = operand meaning is checked by loading the same text into the 6502 model; label text = Lbl.text (kind ++ counter)",
+           "the proof's machine resolves labels structurally (kind, counter); that distinct (kind, counter) pairs render to distinct texts is C13's theorem rename_injective / digit-suffix argument, not re-proved here",
            "programs outside the declared fragment are covered by co-execution only (partial)",
            "where ISO C's int promotion and 8-bit wrap-around disagree on a run, that run is not judged"]
 
@@ -55,6 +59,117 @@ def flat_program(rng):
     return src, toks
 
 
+COPS = [("eq", "=="), ("ne", "!="), ("lt", "<"), ("ge", ">="), ("gt", ">"), ("le", "<=")]
+
+
+def struct_program(rng):
+    """a random program of the stage-2 fragment: (C source, prefix tokens for the Lean port)"""
+    names = ["a", "b", "c", "d"]
+
+    def atom(allow_const=True, nonzero=False):
+        if allow_const and rng.random() < 0.4:
+            n = rng.choice(([] if nonzero else [0, 0]) + [1, 3, 7, 127, 128, 255])
+            return "c%d" % n, str(n), True, n
+        v = rng.choice(names)
+        return "v" + v, v, False, None
+
+    def flat():
+        k = rng.random()
+        v = rng.choice(names)
+        if k < 0.3:
+            t, s_, _, _ = atom()
+            return "asg:%s:%s" % (v, t), "%s = %s;" % (v, s_)
+        if k < 0.55:
+            o = rng.choice(OPS)
+            t1, s1, c1, _ = atom()
+            t2, s2, c2, _ = atom(allow_const=not c1)
+            return "bin:%s:%s:%s:%s" % (v, o[0], t1, t2), "%s = %s %s %s;" % (v, s1, o[1], s2)
+        if k < 0.7:
+            o = rng.choice(OPS)
+            t, s_, _, _ = atom()
+            return "oas:%s:%s:%s" % (v, o[0], t), "%s %s= %s;" % (v, o[1], s_)
+        if k < 0.85:
+            return "inc:" + v, rng.choice(["%s++;", "++%s;"]) % v
+        return "dec:" + v, rng.choice(["%s--;", "--%s;"]) % v
+
+    def cond():
+        k = rng.random()
+        if k < 0.2:
+            v = rng.choice(names)
+            return "t:" + v, v
+        if k < 0.35:
+            v = rng.choice(names)
+            return "nt:" + v, "!" + v
+        o = rng.choice(COPS)
+        ordered = o[0] not in ("eq", "ne")
+        t1, s1, c1, n1 = atom(nonzero=ordered)
+        t2, s2, c2, n2 = atom(allow_const=not c1, nonzero=ordered)
+        return "cmp:%s:%s:%s" % (o[0], t1, t2), "%s %s %s" % (s1, o[1], s2)
+
+    def stmt(depth):
+        k = rng.random()
+        if depth >= 3 or k < 0.45:
+            t, s_ = flat()
+            return [t], s_
+        if k < 0.5:
+            return ["skip"], "{ }"
+        if k < 0.6:
+            n = rng.randint(1, 3)
+            parts = [stmt(depth + 1) for _ in range(n)]
+            return ["{"] + sum([p[0] for p in parts], []) + ["}"], "{ " + " ".join(p[1] for p in parts) + " }"
+        if k < 0.72:
+            ct, cs = cond(); bt, bs = stmt(depth + 1)
+            return ["if", ct] + bt, "if (%s) %s" % (cs, brace(bs))
+        if k < 0.82:
+            ct, cs = cond(); bt, bs = stmt(depth + 1); et, es = stmt(depth + 1)
+            return ["ife", ct] + bt + et, "if (%s) %s else %s" % (cs, brace(bs), brace(es))
+        counting = rng.random() < 0.6          # loops that count, so that most of them terminate
+        v = rng.choice(names)
+        if k < 0.89:
+            ct, cs = cond(); bt, bs = stmt(depth + 1)
+            if counting:
+                ct, cs = rng.choice([("t:" + v, v), ("cmp:ne:v%s:c0" % v, "%s != 0" % v), ("cmp:ne:c0:v%s" % v, "0 != %s" % v)])
+                bt, bs = ["{"] + bt + ["dec:" + v, "}"], "{ %s %s--; }" % (bs, v)
+            return ["wh", ct] + bt, "while (%s) %s" % (cs, brace(bs))
+        if k < 0.95:
+            ct, cs = cond(); bt, bs = stmt(depth + 1)
+            if counting:
+                n = rng.randint(1, 6)
+                ct, cs = rng.choice([("cmp:lt:v%s:c%d" % (v, n), "%s < %d" % (v, n)), ("cmp:ne:v%s:c%d" % (v, n), "%s != %d" % (v, n)),
+                                     ("cmp:le:v%s:c%d" % (v, n), "%s <= %d" % (v, n)), ("cmp:gt:c%d:v%s" % (n, v), "%d > %s" % (n, v))])
+                bt, bs = ["{"] + bt + ["inc:" + v, "}"], "{ %s %s++; }" % (bs, v)
+            return ["do"] + bt + [ct], "do %s while (%s);" % (brace(bs), cs)
+        it, is_ = flat(); ut, us = flat(); ct, cs = cond(); bt, bs = stmt(depth + 1)
+        if counting:
+            n = rng.randint(1, 6)
+            if rng.random() < 0.5:
+                it, is_ = "asg:%s:c0" % v, "%s = 0;" % v
+                ct, cs = rng.choice([("cmp:lt:v%s:c%d" % (v, n), "%s < %d" % (v, n)), ("cmp:ne:v%s:c%d" % (v, n), "%s != %d" % (v, n)),
+                                     ("cmp:ge:c%d:v%s" % (n, v), "%d >= %s" % (n, v))])
+                ut, us = "inc:" + v, v + "++"
+            else:
+                it, is_ = "asg:%s:c%d" % (v, n), "%s = %d;" % (v, n)
+                ct, cs = rng.choice([("t:" + v, v), ("cmp:ne:v%s:c0" % v, "%s != 0" % v), ("cmp:ge:v%s:c1" % v, "%s >= 1" % v)])
+                ut, us = "dec:" + v, v + "--"
+        return ["for", it, ct, ut] + bt, "for (%s %s; %s) %s" % (is_, cs, us.rstrip(";"), brace(bs))
+
+    def brace(s_):
+        # a body that is a single flat statement is sometimes written without braces; an `if` body is
+        # always braced (dangling else)
+        if s_.startswith("{"):
+            return s_
+        if s_.startswith("if") or rng.random() < 0.5:
+            return "{ " + s_ + " }"
+        return s_
+
+    toks, lines = [], []
+    for _ in range(rng.randint(1, 8)):
+        t, s_ = stmt(0)
+        toks += t; lines.append(s_)
+    src = "unsigned char a, b, c, d;\nvoid main() {\n  " + "\n  ".join(lines) + "\n}\n"
+    return src, toks
+
+
 def run(chk):
     ok, obligations = prepare(chk)
     if not ok:
@@ -74,6 +189,48 @@ def run(chk):
             chk.tie_broken("generator port differs from the real -O0 output", {"source": src, "real": real[:600], "model": ma[:600]})
         if i == 0:
             chk.sample({"fragment_program": src[:300]})
+    # ---- tie: the stage-2 port (structured control flow, flag belief), instructions and labels text-exact ----
+    for i in range(chk.scale(400, 6000)):
+        src, toks = struct_program(rng)
+        r = h.compile(src, 0)
+        ma = m.req("genstruct " + " ".join(toks))
+        chk.case(key=src, nontrivial=any(t in ("if", "ife", "wh", "do", "for") for t in toks))
+        chk.count("struct_programs")
+        if r["status"] != "ok":
+            chk.tie_broken("program of the declared stage-2 fragment rejected: %s" % r["status"], {"source": src}); continue
+        real = "ok " + " ".join(("%s:%s" % (l[1], l[2]) if l[0] == "I" else "L:%s" % l[1]) for l in r["funcs"][-1]["generated"]["lines"] if l[0] in ("I", "L"))
+        if real != ma:
+            chk.tie_broken("stage-2 generator port differs from the real -O0 output", {"source": src, "tokens": " ".join(toks), "real": real[:900], "model": ma[:900]})
+        if i == 0:
+            chk.sample({"stage2_program": src[:400]})
+        # the specification side of the theorem (`sem`) against the really compiled code, executed on the
+        # 6502 model from a few states, at -O0 and -O1 (validates `sem`; finds the input when the tie breaks)
+        if i % 3 == 0:
+            for level in (0, 1):
+                rr = r if level == 0 else h.compile(src, 1)
+                if rr["status"] != "ok":
+                    continue
+                env, init, ports, regions = prog.layout(rr["vars"])
+                okl, _ = prog.load(m, "c01s", rr, env=env, ports=ports)
+                if not okl:
+                    chk.count("struct_unloadable"); continue
+                for _ in range(3):
+                    vals = {n: rng.choice([0, 1, 2, 3, 5, 127, 128, 254, 255, rng.randrange(256)]) for n in "abcd"}
+                    exp = m.req("semstruct 3000 / %s / %s" % (" ".join("%s=%d" % kv for kv in sorted(vals.items())), " ".join(toks)))
+                    if not exp.startswith("ok "):
+                        chk.count("struct_sem_" + exp.split(" ")[0]); continue
+                    want = {t.split("=")[0]: int(t.split("=")[1]) for t in exp[3:].split(" ")}
+                    mem = dict(init)
+                    for n, v in vals.items():
+                        mem[regions[n][0]] = v
+                    res = prog.run(m, "c01s", mem=mem, a=rng.randrange(256), x=rng.randrange(256), y=rng.randrange(256), fuel=400000,
+                                   watch=[(regions[n][0], 1) for n in "abcd"])
+                    chk.count("struct_executions")
+                    got = {n: res["mem"][k] for k, n in enumerate("abcd")} if res["stop"] == "done" else {"stop": res["stop"]}
+                    if got != want:
+                        chk.fail("c01-struct-wrong-value", "compiled code (-O%d) of a stage-2 program ends with %s, the source prescribes %s" % (level, got, want),
+                                 {"source": src, "level": level, "initial": vals, "got": got, "expect": want})
+                        break
     # ---- regression exemplars of recorded findings: {exemplar, init, expect} ----
     regress = []
     for c in chk.corpus():
